@@ -30,6 +30,11 @@ import dns.ipv6
 
 from lib import Err
 
+# dns.rdata.get_rdata_class caches its answers, and the order of the first lookups matters (C02's known finding:
+# a class-IN-only type first looked up in another class is cached as generic): load every implemented type in
+# class-IN-first order once, so that what a wire parses to does not depend on the cases that came before it
+dns.rdata.load_all_types(disable_dynamic_load=False)
+
 IN, CH, HS, NONE, ANY = 1, 3, 4, 254, 255
 A, NS, CNAME, SOA, PTR, MX, TXT, AAAA, SRV, OPT, RRSIG, TSIG = 1, 2, 5, 6, 12, 15, 16, 28, 33, 41, 46, 250
 SIG = 24
@@ -46,6 +51,7 @@ NSEC3PARAM, URI, WKS, NAPTR = 51, 256, 11, 35
 KEY, DS, DLV, CDS, ZONEMD, CAA, CSYNC, NSEC3 = 25, 43, 32769, 59, 63, 257, 62, 50
 DNAME, NSEC, NSAP_PTR, BRID, HHIT = 39, 47, 23, 68, 67
 LP, TKEY = 107, 249
+DSYNC = 66
 FIELD_TYPES_ANY = {
     SPF: "txt", NINFO: "txt", AVC: "txt", RESINFO: "txt", WALLET: "txt",
     AFSDB: [2, "U"], RT: [2, "U"], RP: ["U", "U"],
@@ -55,7 +61,7 @@ FIELD_TYPES_ANY = {
     KEY: [4, "R"], DS: ["ds"], DLV: ["ds"], CDS: ["cds"], ZONEMD: ["zonemd"], CAA: ["caa"],
     CSYNC: [6, "bitmap"], NSEC3: [4, "C8", "C8", "bitmap"],
     DNAME: ["X"], NSEC: ["X", "bitmap"], BRID: ["R"], HHIT: ["R"],      # "X": uncompressed name, case kept in the digest
-    LP: [2, "X"], TKEY: ["X", 12, "C16", "C16"],
+    LP: [2, "X"], TKEY: ["X", 12, "C16", "C16"], DSYNC: [5, "X"],
 }
 
 
@@ -229,6 +235,8 @@ def mk_rdata(rdclass, rdtype, rd):
             return cls(rdclass, rdtype, piece_name(rd, 0), bitmap_windows(pb(1)))
         if rdtype == LP:
             return cls(rdclass, rdtype, struct.unpack("!H", pb(0))[0], piece_name(rd, 1))
+        if rdtype == DSYNC:
+            return cls(rdclass, rdtype, *struct.unpack("!HBH", pb(0)), piece_name(rd, 1))
         if rdtype == TKEY:
             return cls(rdclass, rdtype, piece_name(rd, 0), *struct.unpack("!IIHH", pb(1)), pb(2)[2:], pb(3)[2:])
         if rdtype in (OPENPGPKEY, DHCID, NSAP, EUI48, EUI64, BRID, HHIT):
@@ -387,6 +395,8 @@ def rdata_pieces(rd):
             return [[2, labels_of(rd.next)], bitmap_bytes(rd.windows)]
         if t == LP:
             return [struct.pack("!H", rd.preference), [2, labels_of(rd.fqdn)]]
+        if t == DSYNC:
+            return [struct.pack("!HBH", int(rd.rrtype), int(rd.scheme), rd.port), [2, labels_of(rd.target)]]
         if t == TKEY:
             return [[2, labels_of(rd.algorithm)], struct.pack("!IIHH", rd.inception, rd.expiration, rd.mode, rd.error),
                     struct.pack("!H", len(rd.key)) + rd.key, struct.pack("!H", len(rd.other)) + rd.other]
@@ -598,7 +608,7 @@ NAME_FIELDS = {NS: ["n"], CNAME: ["n"], PTR: ["n"], MX: [2, "n"], SOA: ["n", "n"
                RRSIG: [18, "n", None], SIG: [18, "n", None], TSIG: ["n", None],
                AFSDB: [2, "n"], RT: [2, "n"], RP: ["n", "n"], KX: [2, "n"], PX: [2, "n", "n"],
                NAPTR: [4, "c8", "c8", "c8", "n"], DNAME: ["n"], NSAP_PTR: ["n"], NSEC: ["n", None],
-               LP: [2, "n"], TKEY: ["n", None]}
+               LP: [2, "n"], TKEY: ["n", None], DSYNC: [5, "n"]}
 IN_ONLY_NAME_TYPES = (SRV, KX, PX, NAPTR, NSAP_PTR)
 
 
